@@ -96,7 +96,9 @@ class C13(SimCheck):
                   "components owned by x; executing an event owned by a silent x is invisible to the others; an event not "
                   "owned by x acts congruently on equal views; hence along two runs that differ only in x's program the view "
                   "of the others is a function of the number of executed visible events, the projected traces are "
-                  "prefix-comparable and equal at equal visible counts. The literal statement fails in the model exactly as "
+                  "prefix-comparable and equal at equal visible counts; for completed runs under a duration bound (what "
+                  "start_simulation does) everything the others observe before finish, their finish callbacks and their "
+                  "positions are equal. The literal statement fails in the model exactly as "
                   "in the code at the iteration budget and at the clock read in finish (witness theorem, finding F13). Tied "
                   "to the code by paired executions, each also compared with its model run.")
     rule = ("2-5 nodes, timers and communication on, mobility in most scenarios, no iteration limit, blocking start; run A: "
